@@ -7,8 +7,11 @@ VERIF = os.path.dirname(os.path.dirname(os.path.abspath(__file__)))
 SEEDED = os.path.join(VERIF, 'seeded')
 os.makedirs(SEEDED, exist_ok=True)
 # import new ones
-for d in sorted(glob.glob('/tmp/seed_C*') + glob.glob('/tmp/seed2_C*')):
-    rnd = '2' if os.path.basename(d).startswith('seed2_') else ''
+for d in sorted(glob.glob('/tmp/seed_C*') + glob.glob('/tmp/seed2_C*') +
+                glob.glob('/tmp/seed3_C*')):
+    b = os.path.basename(d)
+    rnd = '2' if b.startswith('seed2_') else ('3' if b.startswith('seed3_')
+                                              else '')
     pid = os.path.basename(d).split('_')[1]
     for v in 'abc':
         pf = os.path.join(d, 'patch_%s.diff' % v)
@@ -31,7 +34,8 @@ for tgt in sorted(glob.glob(os.path.join(SEEDED, 'C*_*'))):
         rows.append(json.load(open(mf)))
         continue
     r = subprocess.run(['/venv/bin/python', os.path.join(VERIF, 'tools', 'eval_seed.py'),
-                        name, os.path.join(tgt, 'patch.diff'), os.path.join(tgt, 'demo.py')],
+                        name, os.path.join(tgt, 'patch.diff'), os.path.join(tgt, 'demo.py'),
+                        '--confirm-only'],
                        capture_output=True, text=True)
     t = r.stdout
     try:
@@ -52,7 +56,7 @@ for tgt in sorted(glob.glob(os.path.join(SEEDED, 'C*_*'))):
             'scratch worktree of /repo HEAD: demo.py exits %s without the patch' % d.get('demo_without_patch'),
             'git apply patch.diff: %s' % d.get('tests'),
             'demo.py exits %s with the patch' % d.get('demo_with_patch'),
-            'git -C /repo apply patch.diff; every check (quick, --no-evidence); git -C /repo checkout -- .'],
+            'checks: tools/regress.py --update-meta (patch applied to a scratch copy of /repo/pyModelChecking, every check run with --repo <copy>)'],
         'detected_by': d['detected_by'],
         'inconclusive_in': d['inconclusive'],
         'reports': {k: v[:2] for k, v in d['reports'].items()},
